@@ -134,7 +134,7 @@ def run():
                 ar = R.ast_roles(r["ast"])
                 if kind == "tree" and k[1] == 1 and "rooted-leading-tree" in ar:
                     roles.add("rooted-leading-tree")
-                if kind in ("alt", "rep") and "tree-at-branch-edge" in ar:
+                if kind in ("alt", "rep") and ref.superposition_mismatch(r["ast"]):
                     roles.add("tree-at-branch-edge")
                 rep.candidate(roles, {"short": {"program": r["text"], "path": w, "capture_index": k[1],
                                                 "captured": cap, "token_kind": kind,
